@@ -31,7 +31,7 @@ var ssoDims = []dim{
 	{"issuer", []string{"registered", "absent", "empty", "unregistered", "other-registered", "case-variant"}},
 	{"destination", []string{"absent", "advertised", "foreign", "trailing-slash", "upper-host"}},
 	{"notbefore", []string{"absent", "past", "future", "garbage", "past-nofrac", "past-9frac", "now-frac"}},
-	{"notonorafter", []string{"absent", "future", "past", "garbage", "zero-time"}},
+	{"notonorafter", []string{"absent", "future", "past", "garbage", "zero-time", "past-offset"}},
 	{"emptycond", []string{"no", "yes"}},
 	{"protobinding", []string{"absent", "post", "redirect", "artifact", "other"}},
 	{"acsurl", []string{"absent", "foreign", "prefix-foreign"}},
@@ -40,7 +40,7 @@ var ssoDims = []dim{
 	{"escstyle", []string{"go", "lowerhex", "pct20"}},
 	{"reqsigned", []string{"absent", "false", "0", "true", "1"}},
 	{"certs", []string{"one-rsa", "none", "one-ec", "two-rsa", "one-rsa-encryption"}},
-	{"acs", []string{"post+redirect", "post", "redirect", "artifact", "none", "redirect-default-post", "paos+unknown", "no-spsso", "simplesign-only", "custom-first", "redirect-unparsable"}},
+	{"acs", []string{"post+redirect", "post", "redirect", "artifact", "none", "redirect-default-post", "paos+unknown", "no-spsso", "simplesign-only", "custom-first", "redirect-unparsable", "padded-binding"}},
 	{"wantsigned", []string{"", "false", "true", "1"}},
 	{"lookup", []string{"ok", "fail"}},
 	{"create", []string{"ok", "fail", "fail-with-value"}},
@@ -116,6 +116,9 @@ func acsFor(label string) []AcsEntry {
 		return []AcsEntry{{"1", "", "urn:oasis:names:tc:SAML:2.0:bindings:HTTP-POST-SimpleSign", "https://sp.example.com/acs/simplesign"}}
 	case "custom-first":
 		return []AcsEntry{{"0", "true", "urn:example:custom-binding", "https://sp.example.com/acs/custom"}, {"1", "", provider.PostBinding, "https://sp.example.com/acs/post"}}
+	case "padded-binding":
+		// binding URIs that equal a supported one only after trimming white space: not an answerable binding
+		return []AcsEntry{{"1", "", provider.RedirectBinding + " ", "https://sp.example.com/acs/redirect"}, {"2", "", " " + provider.PostBinding, "https://sp.example.com/acs/post"}}
 	case "paos+unknown":
 		return []AcsEntry{{"1", "", paosBind, "https://sp.example.com/acs/paos"}, {"2", "", "urn:example:unknown", "https://sp.example.com/acs/unknown"}}
 	}
@@ -211,6 +214,9 @@ func timeLabel(l string, now time.Time) string {
 		return "yesterday"
 	case "zero-time":
 		return "0001-01-01T00:00:00Z" // a valid instant of the supported lexical form, long past
+	case "past-offset":
+		// an instant one hour ago, written in a zone two hours east: its wall-clock digits lie in the future
+		return now.Add(-time.Hour).In(time.FixedZone("", 2*3600)).Format("2006-01-02T15:04:05-07:00")
 	case "now-frac":
 		// stamped with full precision immediately before the request is sent: not in the future, same wall-clock second
 		return now.UTC().Format("2006-01-02T15:04:05.000000000Z")
@@ -585,7 +591,7 @@ func runSso(c Case) *SsoRun {
 	nbOK := c["notbefore"] == "absent" || strings.HasPrefix(c["notbefore"], "past") || c["notbefore"] == "now-frac"
 	noaOK := c["notonorafter"] == "absent" || c["notonorafter"] == "future"
 	f.TimeOK = nbOK && noaOK
-	f.TimeUnparseable = c["notbefore"] == "garbage" || c["notonorafter"] == "garbage" // "zero-time" parses, and is in the past
+	f.TimeUnparseable = c["notbefore"] == "garbage" || c["notonorafter"] == "garbage" || c["notonorafter"] == "past-offset" // "zero-time" parses, and is in the past; a numeric zone offset is not of the supported lexical form
 	spFlag := sp.ReqSigned
 	if doc.Issuer == spEntityB {
 		// the issuer in effect is SP B: no signing requirement of its own, registered key = the "foreign" key pair
